@@ -165,14 +165,22 @@ def check_term(term, res=None, second=False):
                     with numpy.errstate(all='ignore'):
                         v = numpy.asarray(fd(env))
                 except Exception as e:
-                    return (name, 'eval-exception', 'evaluating the derivative raised {!r}'.format(e)[:300])
+                    # a failure of the OPTIMISED code only is a code-generation matter (C02 enumerates derivative expressions differentially
+                    # across configurations); the derivative itself is judged on the unoptimised evaluation
+                    try:
+                        with numpy.errstate(all='ignore'):
+                            v = numpy.asarray(irtools.compile_(d, simplify=True, optimize=False)(env))
+                        if res is not None:
+                            res.count('optimized_evaluation_raised_see_C02')
+                    except Exception:
+                        return (name, 'eval-exception', 'evaluating the derivative raised {!r}'.format(e)[:300])
                 if res is not None:
                     res.count('evaluations')
                 if v.shape != J.shape:
                     return (name, 'shape', 'derivative evaluates to shape {} instead of {}'.format(v.shape, J.shape))
                 scale = 1. + abs(J).max() if J.size else 1.
                 if not (abs(v - J) <= TOL * scale).all():
-                    return (name, 'value', 'd/d{} = {} but finite differences of the reference give {} at {}'.format(name, irtools.describe(v), irtools.describe(J), {k: numpy.asarray(x).tolist() for k, x in env.items()}))
+                    return (name, 'value', 'd/d{} = {} but finite differences of the reference give {} at {}'.format(name, irtools.describe(v), irtools.describe(J), {k: numpy.asarray(x).tolist() for k, x in env.items()}), env, bool(numpy.isnan(v).any()))
                 nz = nz or bool(abs(J).max() > 1e-9) if J.size else nz
                 if d2 is not None:
                     try:
@@ -196,6 +204,19 @@ def check_term(term, res=None, second=False):
     return None
 
 
+def _singular_determinant(term, env):
+    'does the term contain a determinant whose operand is (numerically) singular at this valuation?'
+    for sub in T.subterms(term):
+        if sub[0] == 'determinant':
+            try:
+                M = numpy.moveaxis(T.ref(sub[2], env), list(sub[1]), [-2, -1])
+            except Exception:
+                continue
+            if M.size and (numpy.linalg.matrix_rank(M) < M.shape[-1]).any():
+                return True
+    return False
+
+
 def _one(term, res, second):
     res.count('programs')
     try:
@@ -208,7 +229,12 @@ def _one(term, res, second):
         res.count('build_errors')
         return
     from .c01 import abstract
-    res.violation('{}:{}'.format(fail[1], abstract(term))[:300], '{} :: target {} {}: {}'.format(T.show(term), fail[0], fail[1], fail[2]), {'term': T.to_json(term), 'second': second})
+    key = '{}:{}'.format(fail[1], abstract(term))[:300]
+    if len(fail) > 4 and fail[4] and _singular_determinant(term, fail[3]):
+        # one root cause for every term in which it shows: Determinant._derivative is det * trace(inverse * dA), which is NaN at a
+        # singular matrix although the determinant is a polynomial (true derivative: the adjugate)
+        key = 'nan-derivative:determinant-of-singular-matrix'
+    res.violation(key, '{} :: target {} {}: {}'.format(T.show(term), fail[0], fail[1], fail[2]), {'term': T.to_json(term), 'second': second})
 
 
 # ------------------------------------------------------------- user-defined operations and function-level derivative
